@@ -13,7 +13,7 @@ import shutil
 import tempfile
 
 from core import proto, oracle
-from .common import case, guarded
+from .common import case, guarded, snapshot, snap_diff
 
 ID = "C08"
 RULE = ("c08.rt: instances built by direct field assignment; (a) model-parse(impl.write(i)) = content of i, "
@@ -43,6 +43,20 @@ COVER_FILES = ["instances/preflibinstance/categorical.py", "instances/preflibins
 CHUNK = 25
 
 WORK = os.path.join(oracle.VERIF, ".work")
+_MAIN_PID = os.getpid()
+
+
+def _cleanup():
+    """scratch directories of workers that were killed in the middle of a case (watchdog, coverage time limit)"""
+    if os.getpid() != _MAIN_PID:
+        return
+    import glob
+    for d in glob.glob(os.path.join(WORK, "c08_%d_*" % _MAIN_PID)):
+        shutil.rmtree(d, ignore_errors=True)
+
+
+import atexit  # noqa: E402
+atexit.register(_cleanup)
 PATTERN = r"{[\d,]+?}|[\d,]+|{}"
 FIELDS = ["file_name", "title", "description", "data_type", "modification_type", "relates_to", "related_files",
           "publication_date", "modification_date"]
@@ -74,7 +88,14 @@ def normalise_fname(p):
     return p
 
 
-def build(p):
+def entry_of(mode):
+    """mode bits: 1 = parse_str instead of parse_file; 2 = categories_name keyed by str (as from_ordinal leaves it);
+    4 = parse_lines on a caller-owned list that is poisoned afterwards; 8 = (histories) recompute_cardinality_param()
+    between the change and the second write"""
+    return 1 if mode & 4 else mode & 1
+
+
+def build(p, strkeys=False):
     from preflibtools.instances import CategoricalInstance
     inst = CategoricalInstance()
     for f, v in zip(FIELDS, p[0]):
@@ -82,7 +103,7 @@ def build(p):
     inst.num_alternatives, inst.num_voters = p[1], p[2]
     inst.alternatives_name = {a: proto.untext(n) for a, n in p[3]}
     inst.num_unique_preferences, inst.num_categories = p[4], p[5]
-    inst.categories_name = {c: proto.untext(n) for c, n in p[6]}
+    inst.categories_name = {(str(c) if strkeys else c): proto.untext(n) for c, n in p[6]}
     inst.preferences = [tuple(tuple(c) for c in b) for b in p[7]]
     inst.multiplicity = {tuple(tuple(c) for c in b): m for b, m in p[8]}
     return inst
@@ -145,7 +166,12 @@ def _parse(d, name, s, mode, autocorrect=False, header_only=False):
     """a fresh instance parsing content s through parse_file (mode 0) or parse_str (mode 1)"""
     from preflibtools.instances import CategoricalInstance
     inst = CategoricalInstance()
-    if mode == 0:
+    if mode & 4:
+        lines = s.splitlines()
+        inst.parse_lines(lines, autocorrect=autocorrect, header_only=header_only)
+        lines[:] = ["# TITLE: poisoned", "# CATEGORY NAME 77: poisoned", "99: {98, 97}"]    # the list is the caller's
+        lines.reverse()
+    elif mode & 1 == 0:
         path = os.path.join(d, name)
         _write_raw(path, s)
         inst.parse_file(path, autocorrect=autocorrect, header_only=header_only)
@@ -170,8 +196,13 @@ def _rt_tail(d, out, text1, mode, mw=None):
     out["parsed1"] = [0, canon(j)]
     os.makedirs(os.path.join(d, "out"))
     path2 = os.path.join(d, "out", "f.cat")
+    before = snapshot(j)
     j.write(path2)
     out["text2"] = T(_read(path2))
+    out.setdefault("purity", None)
+    out["purity"] = out["purity"] or snap_diff(before, snapshot(j))
+    j.write(path2)                      # and once more on the same object
+    out["text3"] = T(_read(path2))
     if mw is not None:
         os.makedirs(os.path.join(d, "mw"))
         try:
@@ -185,7 +216,7 @@ def _tup(b):
     return tuple(tuple(c) for c in b)
 
 
-def apply_history(p, muts, add):
+def apply_history(p, muts, add, recompute=False):
     """the payload after: multiplicity[b] += k, num_voters += k for (index, k) in muts; then optionally a new ballot"""
     q = [list(x) if isinstance(x, list) else x for x in p]
     q[8] = [[b, m] for b, m in p[8]]
@@ -198,16 +229,20 @@ def apply_history(p, muts, add):
         q[8] = q[8] + [[b, m]]
         q[2] += m
         q[4] += 1
+    if recompute:
+        q[2] = sum(m for _, m in q[8])
+        q[4] = len({proto.enc(b) for b in q[7]})
     return q
 
 
 def _impl_hist(d, pl):
     """write -> mutate the SAME object -> write again (same path): the second file is judged like a first one"""
     p, muts, add, mode = pl
-    inst = build(p)
+    inst = build(p, strkeys=bool(mode & 2))
     path = os.path.join(d, "f.cat")
+    before = snapshot(inst)
     inst.write(path)
-    out = {"write": [0], "textA": T(_read(path))}
+    out = {"write": [0], "textA": T(_read(path)), "purity": snap_diff(before, snapshot(inst))}
     keys = [_tup(b) for b, _ in p[8]]
     for idx, k in muts:
         inst.multiplicity[keys[idx]] += k
@@ -218,7 +253,11 @@ def _impl_hist(d, pl):
         inst.multiplicity[_tup(b)] = m
         inst.num_voters += m
         inst.num_unique_preferences += 1
+    if mode & 8:
+        inst.recompute_cardinality_param()
+    before = snapshot(inst)
     inst.write(path)
+    out["purity"] = out["purity"] or snap_diff(before, snapshot(inst))
     return _rt_tail(d, out, _read(path), mode)
 
 
@@ -236,12 +275,16 @@ def _impl_cycle(d, pl):
     from preflibtools.instances import CategoricalInstance
     p, mode = pl
     path_a = os.path.join(d, "f.cat")
-    build(p).write(path_a)
+    build(p, strkeys=bool(mode & 2)).write(path_a)
     text_a = _read(path_a)
     obj = CategoricalInstance()
 
     def parse_into(path, text):
-        if mode == 0:
+        if mode & 4:
+            lines = text.splitlines()
+            obj.parse_lines(lines)
+            lines[:] = ["1: 99"]
+        elif mode & 1 == 0:
             obj.parse_file(path)
         else:
             obj.parse_str(text, "cat", file_name="f.cat")
@@ -259,12 +302,42 @@ def _impl_cycle(d, pl):
     return out
 
 
+def _impl_seq(d, pl, mw):
+    """object lifetime: something else happens in the same process first (another instance with other categories
+    is parsed / built, possibly ending in an exception), then the instance under test is round-tripped"""
+    from preflibtools.instances import CategoricalInstance
+    pre, p, mode = pl
+    inst = build(p, strkeys=bool(mode & 2))
+    os.makedirs(os.path.join(d, "pre"))
+    kept = []
+    if pre[0] == 0:                      # parse some content with a fresh object (may raise)
+        _, ac, ho, text = pre
+        try:
+            kept.append(_parse(os.path.join(d, "pre"), "f.cat", proto.untext(text), mode, autocorrect=bool(ac),
+                               header_only=bool(ho)))
+            outcome = "parsed"
+        except (ValueError, TypeError):
+            outcome = "raised"
+    else:                                # build another instance (same ids, other content), write it, parse it back
+        other = build(pre[1])
+        po = os.path.join(d, "pre", "f.cat")
+        other.write(po)
+        kept.append(other)
+        kept.append(_parse(os.path.join(d, "pre"), "g.cat", _read(po), mode))
+        outcome = "built"
+    path = os.path.join(d, "f.cat")
+    before = snapshot(inst)
+    inst.write(path)
+    out = {"write": [0], "prelude": outcome, "purity": snap_diff(before, snapshot(inst))}
+    return _rt_tail(d, out, _read(path), mode, mw)
+
+
 def impl(c):
     op, pl = c["op"], c["payload"]
     if op == "c08.tokenize":
         return [T(g) for g in re.findall(PATTERN, proto.untext(pl))]
     os.makedirs(WORK, exist_ok=True)
-    d = tempfile.mkdtemp(prefix="c08_", dir=WORK)
+    d = tempfile.mkdtemp(prefix="c08_%d_" % (_MAIN_PID if os.getpid() != _MAIN_PID else os.getpid()), dir=WORK)
     try:
         if op == "c08.parse":
             ac, ho, mode, content_ = pl
@@ -274,14 +347,18 @@ def impl(c):
             return _impl_cycle(d, pl)
         if op == "c08.hist":
             return _impl_hist(d, pl)
+        if op == "c08.seq":
+            return _impl_seq(d, pl, c["tags"].get("mw"))
         # c08.rt
         p, mode = pl
-        inst = build(p)
+        inst = build(p, strkeys=bool(mode & 2))
         path = os.path.join(d, "f.cat")
+        before = snapshot(inst)
         r = guarded(inst.write, path)
         if r[0] != 0:
             return {"write": r}
-        return _rt_tail(d, {"write": [0]}, _read(path), mode, c["tags"].get("mw"))
+        return _rt_tail(d, {"write": [0], "purity": snap_diff(before, snapshot(inst))}, _read(path), mode,
+                        c["tags"].get("mw"))
     finally:
         shutil.rmtree(d, ignore_errors=True)
 
@@ -303,13 +380,16 @@ def oracle_requests(c, r):
     if op == "c08.hist":
         p0, muts, add, mode = pl
         p0 = normalise_fname(p0)
-        p = apply_history(p0, muts, add)
+        p = apply_history(p0, muts, add, bool(mode & 8))
+    elif op == "c08.seq":
+        _, p, mode = pl
+        p = normalise_fname(p)
     else:
         p, mode = pl
         p = normalise_fname(p)
     reqs = [("c08.write", p), ("c08.sorted_view", p)]
     if isinstance(r, dict) and "text1" in r:
-        reqs.append(("c08.parse", [0, 0, mode, T("f.cat"), T("cat"), r["text1"]]))
+        reqs.append(("c08.parse", [0, 0, entry_of(mode), T("f.cat"), T("cat"), r["text1"]]))
     else:
         reqs.append(("c08.tokenize", []))
     if op == "c08.hist":
@@ -377,10 +457,13 @@ def judge(c, r, mres):
     if op == "c08.hist":
         p0, muts, add, mode = pl
         p0 = normalise_fname(p0)
-        p = apply_history(p0, muts, add)
+        p = apply_history(p0, muts, add, bool(mode & 8))
         mwa = mres[3]
         if mwa[0] != 0 or mwa[1] != r["textA"]:
             return "(e) first written file differs from the model's writer: %s vs %s" % (_show(r["textA"]), _show(mwa[1] if mwa[0] == 0 else []))
+    elif op == "c08.seq":
+        _, p, mode = pl
+        p = normalise_fname(p)
     else:
         # c08.rt
         p, mode = pl
@@ -423,6 +506,11 @@ def judge(c, r, mres):
     # (c) idempotent
     if r["text2"] != r["text1"]:
         return "(c) second write differs: %s vs %s" % (_show(r["text2"]), _show(r["text1"]))
+    if r["text3"] != r["text1"]:
+        return "(c) writing the re-parsed object a second time gives another file: %s vs %s" % (
+            _show(r["text3"]), _show(r["text1"]))
+    if r.get("purity"):
+        return "write() changed the content of the instance it was asked to write: " + r["purity"]
     # (d) model writer as independent writer
     if "parsed_mw" in r:
         if c["tags"]["mw"] != mw[1]:
@@ -441,6 +529,8 @@ def nontrivial(c, r, m):
         return len(r) >= 2
     if op == "c08.parse":
         return bool(c["tags"].get("dirty"))
+    if op == "c08.seq":
+        return len(pl[1][7]) >= 1
     prefs = pl[0][7]
     if op == "c08.hist":
         return len(prefs) >= 2 and bool(pl[1])
@@ -454,11 +544,13 @@ def stats(c, r, m):
     if op == "c08.parse":
         res = "ok" if r[0] == 0 else "error%d" % r[1]
         return ["parse ac=%d ho=%d %s %s" % (pl[0], pl[1], "file" if pl[2] == 0 else "str", res)]
+    if op == "c08.seq":
+        return ["seq prelude=%s" % (r.get("prelude") if isinstance(r, dict) else "?")]
     prefs = pl[0][7]
     if op == "c08.cycle":
         return ["cycle %s ballots=%s" % ("file" if pl[1] == 0 else "str", len(prefs) if len(prefs) < 4 else ">=4")]
     if op == "c08.hist":
-        return ["hist muts=%d add=%d" % (len(pl[1]), 1 if pl[2] else 0)]
+        return ["hist muts=%d add=%d recompute=%d" % (len(pl[1]), 1 if pl[2] else 0, 1 if pl[3] & 8 else 0)]
     lab = ["rt ballots=%s cats=%d" % (len(prefs) if len(prefs) < 4 else ">=4", pl[0][5])]
     kinds = set()
     for b in prefs:
@@ -477,6 +569,25 @@ def stats(c, r, m):
     ms = [mu for _, mu in pl[0][8]]
     if len(ms) != len(set(ms)):
         kinds.add("multiplicity tie")
+    if [b for b, _ in pl[0][8]] != prefs:
+        kinds.add("table key order differs from list order" + (" (all multiplicities distinct)"
+                                                                 if len(ms) == len(set(ms)) else ""))
+    for idx, nm in ((3, "alternatives_name"), (6, "categories_name")):
+        ks = [k for k, _ in pl[0][idx]]
+        if ks != sorted(ks):
+            kinds.add(nm + " not in ascending key order")
+    if pl[1] & 2:
+        kinds.add("str category keys")
+    if pl[1] & 4:
+        kinds.add("parse_lines on a list poisoned afterwards")
+    if pl[0][5] >= 10:
+        kinds.add(">= 10 categories")
+    if any(("  " in proto.untext(n) or "\t" in proto.untext(n) or "\u00a0" in proto.untext(n))
+           for _, n in pl[0][3] + pl[0][6]) or any(
+            ("  " in proto.untext(v) or "\t" in proto.untext(v) or "\u00a0" in proto.untext(v)) for v in pl[0][0]):
+        kinds.add("double blank / tab / nbsp inside a value")
+    if any(n and (chr(n[0]).isdigit() or chr(n[0]) == ":") for _, n in pl[0][6]):
+        kinds.add("category name starting with a digit or colon")
     if any(not n for _, n in pl[0][3]) or any(not n for _, n in pl[0][6]):
         kinds.add("empty name")
     return lab + ["rt has " + k for k in sorted(kinds)]
@@ -489,12 +600,20 @@ def describe(c):
     if op == "c08.parse":
         return {"autocorrect": pl[0], "header_only": pl[1], "entry": "parse_file" if pl[2] == 0 else "parse_str",
                 "content": proto.untext(pl[3])}
+    if op == "c08.seq":
+        dd = describe({"op": "c08.rt", "payload": [pl[1], pl[2]], "tags": {}})
+        dd["first, in the same process"] = (
+            {"parse (autocorrect, header_only)": [pl[0][1], pl[0][2]], "content": proto.untext(pl[0][3])}
+            if pl[0][0] == 0 else {"build, write and parse another instance": describe(
+                {"op": "c08.rt", "payload": [pl[0][1], pl[2]], "tags": {}})})
+        return dd
     p = pl[0]
     if op == "c08.hist":
         dd = describe({"op": "c08.rt", "payload": [p, pl[3]], "tags": {}})
         dd["then"] = {"multiplicity[ballot #i] += k (and num_voters += k)": pl[1], "append ballot": pl[2]}
         return dd
-    return {"entry": "parse_file" if pl[1] == 0 else "parse_str", "kind": op,
+    return {"entry": "parse_lines (list poisoned afterwards)" if pl[1] & 4 else "parse_str" if pl[1] & 1 else "parse_file",
+            "categories_name keyed by str": bool(pl[1] & 2), "kind": op,
             "metadata": {f: proto.untext(v) for f, v in zip(FIELDS, p[0])},
             "num_alternatives": p[1], "num_voters": p[2], "num_unique_preferences": p[4], "num_categories": p[5],
             "alternatives_name": {a: proto.untext(n) for a, n in p[3]},
@@ -513,6 +632,10 @@ def shrink(c):
         lines = proto.untext(pl[3]).split("\n")
         for k in range(len(lines)):
             yield dict(c, payload=[pl[0], pl[1], pl[2], T("\n".join(lines[:k] + lines[k + 1:]))])
+        return
+    if op == "c08.seq":
+        for c2 in shrink({"op": "c08.rt", "payload": [pl[1], pl[2]], "tags": tags}):
+            yield dict(c, payload=[pl[0], c2["payload"][0], pl[2]], tags=tags)
         return
     if op == "c08.hist":
         p, muts, add, mode = pl
@@ -566,13 +689,37 @@ def rand_text(rng, maxlen=12, allow_empty=True):
     return s
 
 
+# whitespace INSIDE a value (double blanks, tabs, U+00A0), values starting with a digit or a colon
+WS_VALUES = ["a  b", "x \t y", "p\u00a0\u00a0q", "1st  place", ":  colon", "12", "2: two", "tab\there", "3\u00a0000",
+             "1", "10", "21 x", ":", ":1", "a   b    c", "\u00a0".join("ab"), "1:1", "0", "Cat  1", "{1, 2}  {}"]
+
+
 def rand_name(rng):
     r = rng.random()
     if r < 0.12:
         return ""
     if r < 0.3:
         return rng.choice(["X", "X__1", "X__2", "Y", "Y__1", "# CATEGORY NAME 2: Z", "1", ": x", ":"])
+    if r < 0.45:
+        return rng.choice(WS_VALUES)
     return rand_text(rng, 10)
+
+
+def decouple(p, rng, how=None):
+    """the same instance with the multiplicity dict keyed in another order than the preferences list"""
+    q = list(p)
+    tab = [list(e) for e in p[8]]
+    how = how or rng.choice(["reverse", "pop", "shuffle", "list"])
+    if how == "reverse":
+        tab.reverse()
+    elif how == "pop" and tab:                      # d[k] = d.pop(k): one key moves to the end
+        tab.append(tab.pop(rng.randrange(len(tab))))
+    elif how == "shuffle":
+        rng.shuffle(tab)
+    else:                                           # the list is reordered instead
+        q[7] = list(reversed(p[7])) if rng.random() < 0.5 else rng.sample(p[7], len(p[7]))
+    q[8] = tab
+    return q
 
 
 def rand_meta(rng):
@@ -581,7 +728,7 @@ def rand_meta(rng):
         if f == "data_type":
             continue
         if rng.random() < 0.6:
-            meta[f] = rand_text(rng, 14)
+            meta[f] = rand_text(rng, 14) if rng.random() < 0.8 else rng.choice(WS_VALUES)
     if rng.random() < 0.15:
         meta["title"] = rng.choice(["# NUMBER VOTERS: 7", "1: 2, 3", "# DATA TYPE: soc", "# CATEGORY NAME 1: q"])
     return meta
@@ -618,7 +765,7 @@ def rand_ballot(rng, ids, k):
 
 def rand_instance(rng):
     m = rng.randint(0, 10)
-    k = rng.randint(1, 5)
+    k = rng.randint(1, 5) if rng.random() < 0.93 else rng.randint(10, 12)
     big = rng.choice([1, 1, 2, 6, 18, 30])
     ids = []
     while len(ids) < m:
@@ -643,24 +790,58 @@ def rand_instance(rng):
                 if tw not in ballots:
                     ballots.append(tw)
     mstyle = rng.random()
-    if mstyle < 0.35:
+    if mstyle < 0.25:
         mults = [rng.choice([1, 2, 3]) for _ in ballots]                 # many ties
+    elif mstyle < 0.4:
+        mults = rng.sample(range(1, 60), len(ballots))                   # pairwise different
     elif mstyle < 0.5:
         mults = [rng.choice([1, 7])] * len(ballots)                      # all tied
     else:
         mults = [rng.choice([1, 2, 5, 10 ** rng.randint(0, 25) + rng.randint(0, 9)]) for _ in ballots]
     named = ids if rng.random() < 0.8 else ids[: len(ids) // 2]
     alt_names = [(a, rand_name(rng)) for a in named]
-    if rng.random() < 0.2:
-        rng.shuffle(alt_names)
-    cat_ids = list(range(1, k + 1)) if rng.random() < 0.8 else rng.sample(range(0, 50), k)
+    if rng.random() < 0.4:
+        rng.shuffle(alt_names)                          # registered in discovery order, not ascending
+    r = rng.random()
+    cat_ids = (list(range(1, k + 1)) if r < 0.6 else list(range(k, 0, -1)) if r < 0.7
+               else rng.sample(range(1, k + 1), k) if r < 0.8 else rng.sample(range(0, 50), k))
     if rng.random() < 0.15:
         cat_ids = cat_ids[: rng.randint(0, k)]          # fewer names than categories
     cat_names = [(c, rand_name(rng)) for c in cat_ids]
     counts = None
     if rng.random() < 0.15:
         counts = (rng.randint(0, 30), rng.randint(0, 10 ** 12), rng.randint(0, 30))   # header numbers are copied
-    return mk_payload(list(zip(ballots, mults)), k, cat_names, alt_names, rand_meta(rng), counts)
+    p = mk_payload(list(zip(ballots, mults)), k, cat_names, alt_names, rand_meta(rng), counts)
+    if rng.random() < 0.4:
+        p = decouple(p, rng)
+    return p
+
+
+def storage_order_cases():
+    """hand-written: list order and dict key order decoupled, names not ascending, from_ordinal-like str keys"""
+    out = []
+    twins = mk_payload([([[2, 1], [3]], 7), ([[1, 2], [3]], 2)], 2, [(2, "b"), (1, "a")],
+                       [(3, "z"), (1, "x"), (2, "y")], {})
+    out.append((decouple(twins, None, "reverse"), 0))
+    three = mk_payload([([[1], [2, 3]], 5), ([[2], [3, 1]], 3), ([[3], []], 1)], 2, [(1, "yes"), (2, "no")],
+                       [(3, "c"), (1, "a"), (2, "b")], {})
+    out.append((decouple(three, None, "reverse"), 1))
+    q = list(three)
+    q[8] = [three[8][1], three[8][2], three[8][0]]
+    out.append((q, 0))
+    q = list(three)
+    q[7] = [three[7][2], three[7][0], three[7][1]]
+    out.append((q, 4))
+    for k in (10, 11, 12):                              # what from_ordinal leaves: str keys "1".."k", names Cat_k
+        cats = [(j, "Cat_%d" % j) for j in range(1, k + 1)]
+        b1 = [[j] for j in range(1, k + 1)]
+        b2 = [[k + 1 - j] if j % 2 else [] for j in range(1, k + 1)]
+        b3 = [[]] * (k - 1) + [list(range(k, 0, -1))]
+        pl = mk_payload([(b1, 4), (b2, 9), (b3, 6)], k, cats, [(j, "Alternative %d" % j) for j in range(1, k + 1)], {})
+        out.append((pl, 2))
+        out.append((decouple(pl, None, "reverse"), 3))
+        out.append((decouple(pl, None, "reverse"), 6))
+    return out
 
 
 def corpus_like():
@@ -776,6 +957,8 @@ def generate(tier, seed):
                 insts.append((simple_instance([(b, 1)], k, alts), {"exh": 1}))
             # all of them in one file: distinct multiplicities, then heavy ties
             insts.append((simple_instance([(b, len(allb) - n) for n, b in enumerate(allb)], k, alts), {"exh": 1}))
+            insts.append((decouple(simple_instance([(b, 1 + n) for n, b in enumerate(allb)], k, alts), None,
+                                   "reverse"), {"exh": 1}))
             insts.append((simple_instance([(b, 1 + (n % 2)) for n, b in enumerate(allb)], k, alts), {"exh": 1}))
     for k in (1, 2, 3):
         for m in (2, 3):
@@ -808,7 +991,49 @@ def generate(tier, seed):
         tags = dict(tags)
         if isinstance(mw, list) and mw and mw[0] == 0:
             tags["mw"] = mw[1]
-        out.append(case("c08.rt", [p, n % 2], **tags))
+        mode = n % 2
+        if rng.random() < 0.2:
+            mode |= 2                   # categories_name keyed by str
+        if rng.random() < 0.15:
+            mode |= 4                   # parse_lines on a list that is poisoned afterwards
+        out.append(case("c08.rt", [p, mode], **tags))
+    for p, mode in storage_order_cases():
+        out.append(case("c08.rt", [p, mode], hand=1))
+        out.append(case("c08.cycle", [p, mode]))
+    # --- object lifetime: something else is parsed / built first in the same process ---
+    texts = {}
+    for (p, _), mw in zip(insts, mws):
+        if isinstance(mw, list) and mw and mw[0] == 0 and p[6]:
+            texts.setdefault(len(p[6]), []).append((p, mw[1]))
+    wide = [e for k_, l in texts.items() if k_ >= 3 for e in l]
+    narrow = [p for p, _ in insts if 1 <= p[5] <= 2 and len(p[7]) == len(p[8]) and p[7]]
+    four = mk_payload([([[1], [2], [], [3]], 2), ([[], [], [1, 2, 3], []], 1)], 4,
+                      [(1, "best"), (2, "good"), (3, "bad"), (4, "worst")], [(1, "a"), (2, "b"), (3, "c")], {})
+    four_text = oracle.run([("c08.write", normalise_fname(four))])[0][1]
+    two = mk_payload([([[1, 2], [3]], 3), ([[3], []], 1)], 2, [(1, "yes"), (2, "no")], [(1, "a"), (2, "b"), (3, "c")], {})
+    for mode in (0, 1, 4):
+        out.append(case("c08.seq", [[0, 0, 0, four_text], two, mode]))
+        out.append(case("c08.seq", [[0, 1, 1, four_text], two, mode]))
+        out.append(case("c08.seq", [[0, 0, 0, four_text + T("oops\n")], two, mode]))     # the first parse raises
+        out.append(case("c08.seq", [[1, four], two, mode]))
+    for n in range(200 if quick else 3000):
+        p = narrow[rng.randrange(len(narrow))]
+        mode = rng.choice([0, 1, 1, 0, 4, 2, 3])
+        r = rng.random()
+        if r < 0.45 and wide:
+            _, text = wide[rng.randrange(len(wide))]
+            pre = [0, int(rng.random() < 0.3), int(rng.random() < 0.2), text]
+        elif r < 0.6 and wide:
+            _, text = wide[rng.randrange(len(wide))]
+            pre = [0, int(rng.random() < 0.3), 0, text + T(rng.choice(["", "abc\n", "1: 2: 3\n", "x: 1\n"]))]
+        elif r < 0.75:
+            pre = [0, int(rng.random() < 0.5), int(rng.random() < 0.3), T("\n".join(dirty_content(rng)) + "\n")]
+        else:
+            other = rand_instance(rng)
+            other = list(other)
+            other[3] = [[a, T(rand_name(rng))] for a, _ in p[3]] or other[3]      # same ids, other names
+            pre = [1, other]
+        out.append(case("c08.seq", [pre, p, mode]))
     # --- histories on one object: write -> change -> write ; parse -> write -> parse -> parse ---
     def history(p):
         nb = len(p[8])
@@ -832,13 +1057,19 @@ def generate(tier, seed):
     for n in range(nh):
         p = hist_src[rng.randrange(len(hist_src))] if n % 3 else rand_instance(rng)
         muts, add = history(p)
-        out.append(case("c08.hist", [p, muts, add, n % 2]))
+        mode = n % 2
+        consistent = p[2] == sum(m for _, m in p[8]) and p[4] == len(p[7])
+        if consistent and rng.random() < 0.4:
+            mode |= 8                   # recompute_cardinality_param() before the second write
+        if rng.random() < 0.2:
+            mode |= 2
+        out.append(case("c08.hist", [p, muts, add, mode]))
     hand = corpus_like()
     out.append(case("c08.hist", [hand[-2], [[1, 6]], [], 0]))            # the x2 twin overtakes the x7 one
     out.append(case("c08.hist", [hand[-2], [[1, 5]], [[[1], [2, 3]], 7], 1]))
     for n in range(150 if quick else 2500):
         p = hist_src[rng.randrange(len(hist_src))] if n % 3 else rand_instance(rng)
-        out.append(case("c08.cycle", [p, n % 2]))
+        out.append(case("c08.cycle", [p, (n % 2) | rng.choice([0, 0, 2, 4])]))
     for p in hand:
         out.append(case("c08.cycle", [p, 0]))
         out.append(case("c08.cycle", [p, 1]))
@@ -861,4 +1092,7 @@ def generate(tier, seed):
             for ho in (0, 1):
                 for mode in (0, 1):
                     out.append(case("c08.parse", [ac, ho, mode, T(s)], dirty=1))
+    only = os.environ.get("C08_ONLY")          # debugging aid: restrict the campaign to some case kinds
+    if only:
+        out = [c for c in out if c["op"].split(".")[1] in only.split(",")]
     return out
